@@ -48,7 +48,7 @@ def regen_memorder():
     return True, msgs
 
 
-def tsan_runs(res, tier, known):
+def tsan_runs(res, tier, known, modes=(0, 1, 2)):
     """K4: free-running threads under ThreadSanitizer (guard off): supports the data-race clause of C03"""
     import os
     ok, exe, log = C.build_harness("k4-tsan", "k4_tsan.cc", ["-O1", "-g", "-fsanitize=thread", "-U" + C.GUARD], compiler="clang++-14")
@@ -60,7 +60,7 @@ def tsan_runs(res, tier, known):
     nseeds = 4 if tier == "quick" else 24
     iters = 2500 if tier == "quick" else 20000
     reports, runs = [], 0
-    for mode in (0, 1):
+    for mode in modes:
         for sd in range(nseeds):
             rc, out, dt = C.sh([exe, str(C.seed() * 100 + sd), str(iters), str(mode)], timeout=300, env=env)
             runs += 1
